@@ -1,6 +1,7 @@
 import Proofs.C05TypeStr
 import Proofs.C05Frame
 import Proofs.C05Rows
+import Proofs.C05Dispatch
 /-!
 # C05 — no bytes from the network can crash the application
 
@@ -9,6 +10,8 @@ helper lemmas in Proofs/C05*.lean. A `crash` outcome of a model is produced exac
 code would raise a run-time panic that nothing recovers.
 -/
 namespace C05
+
+section typestrings
 open TypeStr
 
 /-! ## 1. schema type strings (metadata.go parseType, helpers.go getCassandraType …)
@@ -89,6 +92,8 @@ KF-C05-5. No bound theorem is claimed for apacheToCassandraType. -/
 theorem C05_cex_typestring_alloc :
     (apacheToCassandraType [99,44,117,44,115,44,116,44,111,44,109]).length = 331 ∧
     (apacheToCassandraType [99,44,117,44,115,44,116,44,111,44,109,44,99,44,117]).length = 2232 := by decide +kernel
+
+end typestrings
 
 /-! ## 4. response frames (frame.go parseFrame and the primitive readers 1771-1937)
 
@@ -254,5 +259,56 @@ example : iterate false 4 0 [0, 0, 0, 2, 0, 0, 0, 1, 0, 0, 0, 1, 0, 1, 107, 0, 1
                              0, 0, 0, 1, 7, 255, 255, 255, 255] = some (.ok 2) := by decide +kernel
 
 end rows
+
+/-! ## 5. response-kind dispatch (conn.go / control.go / events.go type switches)
+
+Full statements, the excluded known-bad cells and the lifting lemmas are in Proofs/C05Dispatch.lean;
+the table `Dispatch.dispatch` is compared cell by cell with the table re-extracted from the source
+(go/ast) on every run, and every drivable cell is driven through a real Session in a subprocess. -/
+section dispatch
+open Dispatch
+
+/-- ✱ partial: every (site, kind) cell outside `knownBad` does not crash. -/
+theorem C05_dispatch_total_partial (s : Site) (k : FrameKind) (h : knownBad s k = false) :
+    (dispatch false s k).isCrash = false := C05Dispatch.C05_dispatch_total_partial s k h
+/-- exactness: the unchanged code crashes at a cell iff it is known-bad. -/
+theorem C05_dispatch_crash_iff (s : Site) (k : FrameKind) :
+    (dispatch false s k).isCrash = knownBad s k := C05Dispatch.C05_dispatch_crash_iff s k
+/-- ✱ partial: no sequence of frames avoiding the known-bad cells crashes a site's loop. -/
+theorem C05_stream_total_partial (s : Site) (fs : List FrameKind)
+    (h : ∀ k ∈ fs, knownBad s k = false) : siteRun (dispatch false) s fs = none :=
+  C05Dispatch.C05_stream_total_partial s fs h
+theorem C05_stream_crash_iff (s : Site) (fs : List FrameKind) :
+    siteRun (dispatch false) s fs ≠ none ↔ ∃ k ∈ fs, knownBad s k = true :=
+  C05Dispatch.C05_stream_crash_iff s fs
+/-- ✱ partial: no sequence of frames crashes the handshake unless the authenticator returns a nil
+    next challenger. -/
+theorem C05_handshake_total_partial (cfg : AuthCfg) (fs : List FrameKind) (h : cfg.nilAfter = none) :
+    (hsRun (dispatch false) cfg .awaitSupported fs).isCrashed = false :=
+  C05Dispatch.C05_handshake_total_partial cfg fs h
+theorem C05_password_handshake_crash_iff (fs : List FrameKind) :
+    (hsRun (dispatch false) passwordAuth .awaitSupported fs).isCrashed = true ↔
+      [.supported, .authenticate, .authChallenge] <+: fs :=
+  C05Dispatch.C05_password_handshake_crash_iff fs
+/-- counterexamples (known findings KF-C05-disp-1..3) -/
+theorem C05_cex_conn_heartbeat :
+    dispatch false .connHeartBeat .ready = .crash .panicDefault ∧
+    dispatch false .connHeartBeat .resultVoid = .crash .panicDefault := C05Dispatch.C05_cex_conn_heartbeat
+theorem C05_cex_control_heartbeat :
+    dispatch false .controlHeartBeat .ready = .crash .panicDefault ∧
+    dispatch false .controlHeartBeat .resultVoid = .crash .panicDefault := C05Dispatch.C05_cex_control_heartbeat
+theorem C05_cex_nil_challenger :
+    dispatch false (.authHandshake true) .authChallenge = .crash .nilDeref := C05Dispatch.C05_cex_nil_challenger
+theorem C05_cex_password_handshake :
+    hsRun (dispatch false) passwordAuth .awaitSupported [.supported, .authenticate, .authChallenge]
+      = .crashed .nilDeref ∧
+    hsRun (dispatch false) passwordAuth .awaitSupported [.supported, .authenticate]
+      = .authLoop 1 true := C05Dispatch.C05_cex_password_handshake
+theorem C05_retry_depth_unbounded (n : Nat) :
+    retryDepth false .executeQuery (List.replicate n .unprepared) = n ∧
+    retryDepth false .executeBatch (List.replicate n .unprepared) = n :=
+  C05Dispatch.C05_retry_depth_unbounded n
+
+end dispatch
 
 end C05
